@@ -129,6 +129,8 @@ BLOCKS = {
     'pagestyle': ('misc', 'N', '\\pagestyle{empty}\n'),
     'title': ('misc', 'N', '\\title{Title %(n)s}\\author{Auth}\\maketitle\n'),
     'toc': ('misc', 'N', '\\tableofcontents\n'),
+    'reg_from_reg': ('register', 'W', '\\newmuskip\\myms \\myms=\\thickmuskip \\newskip\\mysk \\mysk=\\parskip \\newdimen\\mydm \\mydm=\\parindent '
+                                      '\\newcount\\myct \\myct=\\tolerance \\thinmuskip=\\medmuskip \\relax r%(n)s\n'),   # every register kind assigned from another register
     'reg_muskip': ('register', 'W', '\\thinmuskip=4mu plus 1mu \n'),
     'reg_glue': ('register', 'W', '\\parskip=3pt plus 1pt \n'),
     'reg_mudimen_free': ('register', 'W', '\\medmuskip=5mu\n'),
@@ -231,6 +233,10 @@ BLOCKS = {
     'bib_b': ('pkgtable', 'R', 'Cite \\cite{kc} and \\cite{kd}.\\begin{thebibliography}{9}\\bibitem{kc} B one.\\bibitem{kd} B two%(n)s.\\end{thebibliography}\n'),
     'color_define_a': ('pkgtable', 'W', '\\definecolor{accent}{rgb}{1,0,0}\\textcolor{accent}{red%(n)s} \\colorbox{accent}{box}.\n'),
     'color_define_b': ('pkgtable', 'R', '\\definecolor{accent}{rgb}{0,0,1}\\textcolor{accent}{blue%(n)s} \\colorbox{accent}{box} \\textcolor[gray]{0.5}{g}.\n'),
+    'natbib_sectionbib': ('pkgtable', 'W', '\\citep{sk%(n)s}\\begin{thebibliography}{9}\\bibitem[S(2002)]{sk%(n)s} S.\\end{thebibliography}\n'),   # natbib loaded with [sectionbib]
+    'natbib_alias_def': ('pkgtable', 'W', '\\defcitealias{ak}{AliasText%(n)s}As \\citetalias{ak} says.\\begin{thebibliography}{9}\\bibitem[A(2000)]{ak} A.\\end{thebibliography}\n'),
+    'natbib_alias_use': ('pkgtable', 'R', 'As \\citetalias{ak} and \\citepalias{ak} say %(n)s.\\begin{thebibliography}{9}\\bibitem[B(2001)]{ak} B.\\end{thebibliography}\n'),   # alias never defined here
+    'color_use_undefined': ('pkgtable', 'R', 'Named \\textcolor{accent}{cu%(n)s} \\colorbox{accent}{box} \\textcolor{mine}{m}.\n'),   # names this document never defines
     'url_dashes': ('pkgtable', 'R', 'See \\url{http://example.org/one--two} u%(n)s.\n\n'),
     'href_dashes': ('pkgtable', 'W', 'See \\href{http://example.org/a--b}{link%(n)s} and \\nolinkurl{http://x.example/c--d}.\n\n'),
     'lang_probe': ('language', 'R', 'Names \\figurename, \\tablename, \\contentsname, \\abstractname, \\today %(n)s.\n'),
@@ -249,11 +255,11 @@ BLOCKS = {
     'newcount_assign': ('switch', 'R', '\\newcount\\fxtotal \\fxtotal=42 T\\the\\fxtotal. \\parskip=2pt plus 1pt Q%(n)s.\n'),
     'dimen_args_unitless': ('switch', 'W', 'A\\hspace{2}B\\vspace{1}C\\parbox{3}{box%(n)s}D\\rule{1}{2pt}E.\n'),
 }
-NEEDS = {'color_define_a': ['color'], 'color_define_b': ['color'], 'url_dashes': ['url'], 'href_dashes': ['hyperref'], 'prog_coltype_right': ['qpa'], 'prog_coltype_center': ['qpb'], 'prog_charsubs': ['qpc'], 'prog_macro': ['qpd'],
+NEEDS = {'color_define_a': ['color'], 'color_use_undefined': ['color'], 'color_define_b': ['color'], 'url_dashes': ['url'], 'href_dashes': ['hyperref'], 'prog_coltype_right': ['qpa'], 'prog_coltype_center': ['qpb'], 'prog_charsubs': ['qpc'], 'prog_macro': ['qpd'],
          'prog_counter': ['qpe'], 'prog_newif': ['qpf'], 'prog_userdata': ['qpg'],
          'ifthenelse_forms': ['ifthen'], 'xcolor_define': ['xcolor'], 'xcolor_redefine': ['xcolor'], 'xcolor_provide': ['xcolor'], 'xcolor_use': ['xcolor'],
          'amsthm_style': ['amsthm'], 'amsthm_plain': ['amsthm'], 'amsopn_declare': ['amsmath'], 'amsopn_provide': ['amsmath'],
-         'hypersetup': ['hyperref'], 'href_plain': ['hyperref'], 'natbib_style': ['natbib'], 'natbib_cite': ['natbib'],
+         'hypersetup': ['hyperref'], 'href_plain': ['hyperref'], 'natbib_style': ['natbib'], 'natbib_cite': ['natbib'], 'natbib_alias_def': ['natbib'], 'natbib_sectionbib': ['natbib[sectionbib]'], 'natbib_alias_use': ['natbib'],
          'index_entries': ['makeidx'], 'index_print': ['makeidx'], 'lstset': ['listings'], 'lstlisting': ['listings'],
          'graphicspath': ['graphicx'], 'floatstyle': ['float'], 'env_longtable': ['longtable'], 'env_align': ['amsmath'], 'env_align_star': ['amsmath'], 'env_gather': ['amsmath'],
          'env_multline': ['amsmath'], 'env_split': ['amsmath'], 'env_cases': ['amsmath'], 'env_matrix': ['amsmath'],
@@ -328,12 +334,16 @@ def job_source(job):
         return corpus_source(job['corpus']) or '\\documentclass{article}\\begin{document}missing corpus file\\end{document}\n'
     lines = ['\\documentclass{%s}' % job['cls']]
     pk = list(job['packages'])
+    popt = {}
     for b in job['blocks']:
         for need in NEEDS.get(b, []):
+            if '[' in need:                      # 'natbib[sectionbib]': the block needs the package loaded with these options
+                need, o = need.split('[', 1)
+                popt.setdefault(need, '[' + o)
             if need not in pk:
                 pk.append(need)
     for p in pk:
-        opt = {'babel': '[french]', 'inputenc': '[utf8]', 'fontenc': '[T1]', 'geometry': '[margin=1in]'}.get(p, '')
+        opt = popt.get(p) or {'babel': '[french]', 'inputenc': '[utf8]', 'fontenc': '[T1]', 'geometry': '[margin=1in]'}.get(p, '')
         if p == 'xcolor' and 'color' in pk:
             continue
         lines.append('\\usepackage%s{%s}' % (opt, p))
@@ -769,6 +779,9 @@ def enumerate_cases(base_seed, tier):
                    ('natbib_style', 'natbib_cite'), ('index_entries', 'index_print'), ('lstset', 'lstlisting'),
                    ('floatstyle', 'captionname'), ('footmark_dangling', 'footmark_pair'), ('bib_a', 'bib_b'), ('bib_b', 'bib_b'),
                    ('color_define_a', 'color_define_b'), ('href_dashes', 'url_dashes'),
+                   ('color_define_a', 'color_use_undefined'), ('xcolor_redefine', 'color_use_undefined'),
+                   ('natbib_alias_def', 'natbib_alias_use'), ('natbib_sectionbib', 'natbib_cite'), ('natbib_sectionbib', 'bib_b'),
+                   ('reg_from_reg', 'reg_newlength'), ('reg_from_reg', 'reg_newcount'), ('reg_from_reg', 'reg_glue'),
                    ('prog_coltype_right', 'prog_coltype_center'), ('prog_charsubs', 'dots_probe'), ('prog_macro', 'prog_macro_probe'),
                    ('prog_counter', 'prog_counter_probe')]
     for w, x in topic_pairs:
